@@ -300,7 +300,7 @@ def retry_for(kind, tier):
     return ('S',)
 
 
-def enabled(history, ndirs, retry=()):
+def enabled(history, ndirs, retry=(), reup=True):
     """events the reference environment can emit next"""
     status = {}
     tries = {}
@@ -342,12 +342,12 @@ def enabled(history, ndirs, retry=()):
             elif st == 'started':
                 out.append(('OK', x, d))
                 out.append(('FAIL', x, d))
-                if x in retry and tries[(x, d)] < 2 and d == 1:
+                if reup and x in retry and tries[(x, d)] < 2 and d == 1:
                     # a second descriptor of the service (other replica / time period) goes to the same directory
                     out.append(('U', x, d))
             elif st == 'failed' and x in retry and tries[(x, d)] < 2:
                 out.append(('U', x, d))         # Tor tries that directory again
-            elif st == 'done' and x in retry and tries[(x, d)] < 2 and d == 1:
+            elif reup and st == 'done' and x in retry and tries[(x, d)] < 2 and d == 1:
                 out.append(('U', x, d))         # Tor publishes again to a directory that has the descriptor (its intro points changed)
     return out
 
@@ -455,6 +455,12 @@ def tasks(tier, seed):
                 out.append((kind, await_all, 4, 'solo-noretry'))
             else:
                 out.append((kind, await_all, 4, 'solo'))
+                out.append((kind, await_all, 3, 'solo'))
+    if tier == 'thorough':
+        # the ephemeral kind again with 2 shared directories (where second uploads to one directory are explored)
+        for await_all in (False, True):
+            for ev in enabled((), 2):
+                out.append(('ephemeral', await_all, 2, ev))
     return out
 
 
@@ -489,8 +495,11 @@ def run_task(param, acc):
 
     retry = retry_for(kind, acc.tier) if not solo else (('S',) if first == 'solo' else ())
 
+    # a second upload to a directory whose first one is confirmed or unresolved: with up to 2 shared / 3 own directories
+    reup = (nd <= 3) if solo else (nd <= 2)
+
     def en(h):
-        e = enabled(h, nd, retry)
+        e = enabled(h, nd, retry, reup)
         if solo:
             e = [x for x in e if len(x) == 1 or x[1] == 'S']
         if slim:
@@ -595,7 +604,8 @@ def meta(tier):
              'ended the creation a second service is created and completed on the same connection (the first one must stay silent, '
              'nothing may stay subscribed); plus %d creations the library itself refuses (line breaks in the key, key type '
              'contradicting the version). non-trivial = at least two events' % (nd, len(REFUSED)),
-        bounds=dict(services=2, shared_directories=nd, solo_directories=4, retries_per_directory=1, solo_directories_with_retry=(3 if tier == 'quick' else 4), modes=['first-upload', 'await-all'], kinds=list(KINDS)),
+        bounds=dict(services=2, shared_directories=nd, solo_directories=4, retries_per_directory=1, solo_directories_with_retry=(3 if tier == 'quick' else 4),
+                    second_upload_to_first_directory='with <= 2 shared directories, or alone with <= 3 directories', modes=['first-upload', 'await-all'], kinds=list(KINDS)),
         assumptions=['Tor cannot report uploads of a service before it answered the command that creates it; histories where it does '
                      'are checked for the safety clauses only (never completes before the reply, never without an own UPLOADED)',
                      '"fails if every attempted upload failed" is evaluated after each event over the upload attempts seen so far; '
